@@ -13,6 +13,6 @@ W="-Wall -Wno-unused-function -Wno-unused-variable -Wno-unknown-pragmas -Wno-for
 set -e
 gcc -std=gnu11 -g -O2 $W -I/verif/engine -c /verif/engine/vf_os.c -o $OUT.os.o
 gcc -std=gnu11 -g -O2 $W -I/verif/engine -c /verif/engine/vf_sched.c -o $OUT.sched.o
-gcc -std=gnu11 -g $F $W -ftls-model=initial-exec -fno-builtin-malloc -I$REPO/include -I$REPO -I$REPO/src -I/verif/engine -include /verif/engine/verif_pre.h -DVF_VARIANT=\"$V\" "$@" -c $SRC -o $OUT.o
+gcc -std=gnu11 -g $F $W -ftls-model=initial-exec -fno-builtin-malloc -I$REPO/include -I$REPO -I$REPO/src -I/verif/engine -include /verif/engine/verif_pre.h -DVF_VARIANT=\"$V\" -DVF_HARNESS=\"$(basename $SRC .c)\" "$@" -c $SRC -o $OUT.o
 gcc -g $OUT.o $OUT.os.o $OUT.sched.o -o $OUT -lpthread -rdynamic
 rm -f $OUT.o $OUT.os.o $OUT.sched.o
